@@ -67,15 +67,16 @@ def judge(args):
                     n, ps["default"], str(e).splitlines()[0][:80])))
             except jsonschema.SchemaError:
                 pass
-        if p["typ"] in ("Lit", "Opt_Lit"):
-            members = ["a", "b"]
+        if p["typ"] in G.LIT_MEMBERS:
+            members = G.LIT_MEMBERS[p["typ"]]
             pat = ps.get("pattern")
             if pat is None and "enum" not in ps:
                 fails.append(("pattern_exact", "{}: Literal type emitted without pattern/enum".format(n)))
             else:
                 v = jsonschema.Draft202012Validator({k: ps[k] for k in ("type", "pattern", "enum") if k in ps})
                 bad_m = [m for m in members if not v.is_valid(m)]
-                near = [x for x in ("ab", "xa", "ax", "a b", "aa", "", "A", "a\n") if v.is_valid(x)]
+                near = [x for x in [members[0] + members[-1], "x" + members[0], members[0] + "x", members[0] + " " + members[-1],
+                                    members[0] * 2, "", members[0].upper() + "Z", members[0] + "\n"] if x not in members and v.is_valid(x)]
                 if bad_m or near:
                     fails.append(("pattern_exact", "{}: pattern {!r} rejects members {} / accepts non-members {}".format(
                         n, pat, bad_m, near)))
